@@ -863,8 +863,9 @@ class NonlinearSolver(Solver):
                    f"{self._iter_count} iterations.")
             self.report_failure(msg)
 
-        # Solver hit maxiter without meeting desired tolerances.
-        elif norm > atol and norm / norm0 > rtol:
+        # Solver hit maxiter without meeting desired tolerances (written as a negation so that
+        # a NaN relative norm, e.g. from a NaN initial norm, does not count as converged).
+        elif not (norm <= atol or norm / norm0 <= rtol):
             self._convergence_failure()
 
         # Solver converged
